@@ -213,7 +213,8 @@ class Gen:
 
     def mime_list(self):
         return self.uniq_list(lambda: self.r.choice(["application/json", "application/xml", "text/plain", "",
-                                                     "*/*", "not a mime"]), 0, 3)
+                                                     "*/*", "not a mime",
+                                                     "application/json;charset=utf-8", "Application/JSON", "application/json; Charset=utf-8"]), 0, 3)
 
     def schemes(self):
         return self.uniq_list(lambda: self.r.choice(["http", "https", "ws", "wss"]), 0, 4)
